@@ -57,6 +57,13 @@ func c01Workload[T any](rep *Report, codec Codec[T], api string, rng *rand.Rand,
 		return
 	}
 	defer p.Shutdown()
+	var rec *traceRec
+	if api == "message" && codec.Name == "json-raw" {
+		var stop func()
+		rec, stop = startTraceRec()
+		defer stop()
+		tapPair(p, rec)
+	}
 	ra, _, _ := p.A.AnyRemote()
 	rb, _, _ := p.B.AnyRemote()
 	if pattern == "holdback" && api == "message" {
@@ -64,16 +71,16 @@ func c01Workload[T any](rep *Report, codec Codec[T], api string, rng *rand.Rand,
 		p.ARes.SetGate(true)
 		p.BRes.SetGate(true)
 	}
-	type rec struct {
+	type callRec struct {
 		from string
 		tag  int
 		str  string
 		res  callResult
 	}
-	recs := make([]*rec, n)
+	recs := make([]*callRec, n)
 	var wg sync.WaitGroup
 	for i := 0; i < n; i++ {
-		r := &rec{tag: i, str: fmt.Sprintf("s%d-%d", i, rng.Intn(1000))}
+		r := &callRec{tag: i, str: fmt.Sprintf("s%d-%d", i, rng.Intn(1000))}
 		if rng.Intn(2) == 0 {
 			r.from = "A"
 		} else {
@@ -145,6 +152,10 @@ func c01Workload[T any](rep *Report, codec Codec[T], api string, rng *rand.Rand,
 	if tot := len(logs["A"]) + len(logs["B"]); tot != n {
 		rep.addViolation("property", fmt.Sprintf("C01:%s:%s:total", api, pattern), fmt.Sprintf("%d calls caused %d invocations", n, tot), desc)
 	}
+	if rec != nil && len(rep.Violations) == 0 {
+		// trace validation: the frames at the transport and the hook events, replayed on the Lean system model M3
+		validateSys(rep, "C01", fmt.Sprintf("%d concurrent calls, %s delivery", n, pattern), sysLines(rec.events(), jsonFrameDecode), n)
+	}
 }
 
 func hangSeen(rep *Report) bool {
@@ -194,6 +205,13 @@ func c02Workload[T any](rep *Report, codec Codec[T], api string, depth int, shap
 		return
 	}
 	defer p.Shutdown()
+	var rec *traceRec
+	if api == "message" && codec.Name == "json-raw" && (shape == "chain" || shape == "tree") {
+		var stop func()
+		rec, stop = startTraceRec()
+		defer stop()
+		tapPair(p, rec)
+	}
 	ra, _, _ := p.A.AnyRemote()
 	rb, _, _ := p.B.AnyRemote()
 	// stalled handlers on both sides
@@ -311,6 +329,13 @@ func c02Workload[T any](rep *Report, codec Codec[T], api string, depth int, shap
 		rep.addViolation("property", key+":error", fmt.Sprintf("%s of depth %d failed: %v", shape, depth, r.err), desc)
 	} else if r.val.(int) != want {
 		rep.addViolation("property", key+":value", fmt.Sprintf("%s of depth %d returned %v, want %d", shape, depth, r.val, want), desc)
+	}
+	if rec != nil && r.ok && r.err == nil && stalled == 0 {
+		calls := depth + 1
+		if shape == "tree" {
+			calls = (1 << (depth + 1)) - 1
+		}
+		validateSys(rep, "C02", fmt.Sprintf("%s of depth %d", shape, depth), sysLines(rec.events(), jsonFrameDecode), calls)
 	}
 	// independent calls complete while others are stalled
 	r2 := withWatchdog(func() (any, error) { return rb.Add(context.Background(), 2, 3) })
